@@ -505,7 +505,10 @@ func runMapProgram(e *mapEnv, nOps, mode, valProf, opProf int) {
 		}
 		if e.step%25 == 24 || e.step == nOps-1 {
 			w.L("FULL h=0 %s", hx.DumpTree(e.ps, atree.VerifMapRoot(e.m)))
-			if err := atree.VerifyMap(e.m, e.addr, e.ty, func(a, b atree.TypeInfo) bool { return a == b }, e.hip, true); err != nil {
+			err := atree.VerifyMap(e.m, e.addr, e.ty, func(a, b atree.TypeInfo) bool { return a == b }, e.hip, true)
+			// the verdict of the library's own checker, matched by its Lean transcription on the replayed tree
+			w.L("VFY h=0 ty=%d r=%s", uint64(e.ty), hx.VerifyClass(err))
+			if err != nil {
 				// VerifyMap recomputes digests with the map's builder: valid for every digest mode
 				e.violation("C05", "VerifyMap: "+err.Error())
 				if e.st.Stream == "mapcollide" {
